@@ -143,7 +143,8 @@ def check_props_module(mod):
     if not os.path.exists(path):
         return False, [], [], ["missing " + path]
     src = strip_comments(open(path).read())
-    names = re.findall(r"^\s*(?:private\s+|protected\s+)?theorem\s+([^\s:({\[]+)", src, flags=re.M)
+    # private theorems are helper lemmas: their axioms surface in the public theorems that use them
+    names = re.findall(r"^\s*(?:protected\s+)?theorem\s+([^\s:({\[]+)", src, flags=re.M)
     os.makedirs(BUILD, exist_ok=True)
     audit = os.path.join(BUILD, "audit_%s.lean" % mod.replace(".", "_"))
     with open(audit, "w") as f:
